@@ -375,7 +375,9 @@ C13StepChecks(k, e, s, t, g) ==
       \* external incentives active in this block were funded in advance: their per-block amount is part of "funded for that block"
       Funded(d) == SumOver({i \in DOMAIN s.mc.incentives : s.mc.incentives[i].denom = d /\ s.mc.incentives[i].from < t.chain.h /\ t.chain.h <= s.mc.incentives[i].to},
                            LAMBDA i : s.mc.incentives[i].perBlock)
-      badEnd == {d \in ds : Credited(d) \succ (DBal(s, t, "mod:masterchef", d) ++ Funded(d)) ** E18}
+      \* (each account's claimable mantissa is floored separately: the floors of the differences can add up to one mantissa
+      \* unit - 1e-18 base units - per account above the credited amount; found by TLC on MC_rewards)
+      badEnd == {d \in ds : Credited(d) \succ ((DBal(s, t, "mod:masterchef", d) ++ Funded(d)) ** E18) ++ N(Cardinality({x \in keys : x[2] = d}))}
       paid(d) == SumOver({x \in RewardKeys(s) : x[2] = d /\ x[3] = e.sender /\ ClaimableM(t, x) # ClaimableM(s, x)}, LAMBDA x : ClaimableM(s, x) // E18)
       badPay == {d \in ds : DBal(s, t, e.sender, d) # paid(d) \/ DBal(s, t, "mod:masterchef", d) # Zero -- paid(d)}
   IN (IF k \in {"Tx", "Begin", "Ante", "PreEnd"} THEN
